@@ -43,6 +43,10 @@ class Unsupported(Exception):
     pass
 
 
+# compare modulo the boundary of comparisons: p < 0 and p <= 0 are identified (used by rules that state so)
+LOOSE = [False]
+
+
 # ---------------------------------------------------------------------------------------------------------------------
 # polynomials
 
@@ -263,7 +267,7 @@ def b_not(b):
     if b[0] == 'lt0':                      # !(p < 0)  <=>  -p <= 0
         return ('le0', (-from_key(b[1])).key())
     if b[0] == 'le0':
-        return ('lt0', (-from_key(b[1])).key())
+        return ('le0' if LOOSE[0] else 'lt0', (-from_key(b[1])).key())
     if b[0] == 'eq0':
         return ('ne0', b[1])
     if b[0] == 'ne0':
@@ -319,6 +323,12 @@ ARITH = ('double', 'float', 'int', 'unsigned int', 'bool', 'long', 'unsigned lon
          'unsigned char', 'char', 'short', 'unsigned short', 'long long', 'unsigned long long')
 
 
+def is_int(ty):
+    ty = (ty or '').replace('const ', '').replace('volatile ', '').strip()
+    return ty in ('int', 'unsigned int', 'long', 'unsigned long', 'std::size_t', 'size_t', 'short', 'unsigned short',
+                  'long long', 'unsigned long long', 'char', 'unsigned char')
+
+
 def is_arith(ty):
     ty = (ty or '').replace('const ', '').replace('volatile ', '').strip()
     return ty in ARITH or ty.endswith('::size_type') or ty in ('std::size_t', 'uint32_t', 'uint64_t', 'int32_t', 'int64_t')
@@ -344,6 +354,7 @@ class Ctx:
         self.self_true_calls = set(self_true_calls)       # f(x, x) == true
         self.inline = inline
         self.opaque_calls = set(opaque_calls)
+        self.distinct = set()                             # frozenset({ref, ref}) of objects known not to alias
         self.unit_norm = list(unit_norm)                  # tuples of atoms whose squares sum to 1
         self.consts = dict(consts or {})                  # atom -> known numeric value
 
@@ -421,6 +432,10 @@ def cmp0(kind, p, ctx):
                 return True
     if kind in ('eq0', 'ne0') and p.lead_negative():
         p = -p
+    if LOOSE[0] and kind == 'lt0':
+        if s == '<=0':
+            return True
+        kind = 'le0'
     return (kind, p.key())
 
 
@@ -438,6 +453,13 @@ def ite(c, a, b):
             a, b = a - common, b - common
         if isinstance(c, tuple) and c and c[0] == 'not':
             c, a, b = c[1], b, a
+        if LOOSE[0] and isinstance(c, tuple) and c and c[0] == 'le0' and from_key(c[1]).lead_negative():
+            c, a, b = ('le0', (-from_key(c[1])).key()), b, a           # !(p <= 0) ~ (-p <= 0) modulo the boundary
+        if a.is_const() and a == -b and a.cval() < 0:
+            return common - Poly.atom(('ite', c, (-a).key(), (-b).key()))
+        if a.t and a == -b and not (a.is_const() and abs(a.cval()) == 1):
+            # c ? x : -x  ==  x * (c ? 1 : -1)
+            return common + a * Poly.atom(('ite', c, Poly.const(1).key(), Poly.const(-1).key()))
         return common + Poly.atom(('ite', c, a.key(), b.key()))
     if is_bool(a) or is_bool(b):
         if a == b:
@@ -451,6 +473,27 @@ def ite(c, a, b):
 # ---------------------------------------------------------------------------------------------------------------------
 # references (objects and pointers):  ('S', name) | ('T',) | ('F', ref, field) | ('I', ref, polykey) | ('N', ref) |
 #                                     ('P', arrayref, offset Poly) pointer into an array | ('call', callee, recv, args...)
+
+
+def _under(ref, root):
+    while True:
+        if ref == root:
+            return True
+        if isinstance(ref, tuple) and ref and ref[0] in ('F', 'I', 'N'):
+            ref = ref[1]
+        else:
+            return False
+
+
+def _reroot(ref, old, new):
+    """ref with its prefix `old` replaced by `new`, or None when ref is not under old"""
+    if ref == old:
+        return new
+    if isinstance(ref, tuple) and ref and ref[0] in ('F', 'I', 'N'):
+        r = _reroot(ref[1], old, new)
+        if r is not None:
+            return (ref[0], r) + tuple(ref[2:])
+    return None
 
 
 def neg_ref(r):
@@ -483,6 +526,21 @@ class Machine:
         self.depth = 0
         self.bvn = 0
         self.trace = []
+        self.ints = set()                 # atoms read through an integer-typed lvalue
+        self.split = False                # False | 'writes' (split where a branch wrote memory or returned) | 'all'
+
+    def integral(self, p):
+        """is every term of p integer valued (integer coefficient times integer-typed atoms)?"""
+        for m, c in p.t.items():
+            if c.denominator != 1:
+                return False
+            for a, e in m:
+                if e < 0:
+                    return False
+                if a in self.ints or (isinstance(a, tuple) and a and a[0] == 'app' and a[1] in ('floor', 'ceil', 'trunc', 'round')):
+                    continue
+                return False
+        return True
 
     # -- heap --------------------------------------------------------------------------------------------------------
     def read(self, ref, st):
@@ -494,9 +552,18 @@ class Machine:
         ref = self.alias(ref, st)
         if isinstance(ref, tuple) and ref and ref[0] == 'N':
             return -self.read(ref[1], st)
-        for k, v, q in reversed(st['heap']):
+        for hi_, (k, v, q) in reversed(list(enumerate(st['heap']))):
             if k == ref:
                 return v
+            if isinstance(k, tuple) and k and k[0] == 'ALL':
+                r2 = _reroot(ref, k[1], v)
+                if r2 is not None:
+                    return self.read(r2, {'heap': st['heap'][:hi_], 'alias': {}})
+                continue
+            if isinstance(k, tuple) and k and k[0] == 'E':
+                if any(_under(ref, a) for a in k[3:] if isinstance(a, tuple)):
+                    raise Unsupported('read of %s after the opaque call %s wrote it' % (show_ref(ref), k[1]))
+                continue
             if q is not None:
                 m = self.match_q(k, ref, q)
                 if m is not None:
@@ -595,17 +662,33 @@ class Machine:
             self.assume(s2, b_not(c))
             r1 = self.stmt(fn, n['then'], s1, rest)
             r2 = self.stmt(fn, n['else'], s2, rest) if n.get('else') else FALL
-            if r1 is FALL and r2 is FALL:
-                self.merge(st, c, s1, s2)
-                return FALL
-            # at least one branch returns: finish the rest of the enclosing blocks on the other
+            h0 = len(st['heap'])
+            force = self.can_split() and (self.split == 'all' or len(s1['heap']) != h0 or len(s2['heap']) != h0 or
+                                          r1 is not FALL or r2 is not FALL)
+            if r1 is FALL and r2 is FALL and not force:
+                try:
+                    self.merge(st, c, s1, s2)
+                    return FALL
+                except Unsupported:
+                    if not self.can_split():
+                        raise
+            # at least one branch returns (or the branches cannot be merged): finish the rest of the enclosing blocks
+            # on each branch separately
             if r1 is FALL:
                 r1 = self.cont(fn, s1, rest)
             if r2 is FALL:
                 r2 = self.cont(fn, s2, rest)
-            # the heap after a partial return is the merge of both complete executions
-            self.merge(st, c, s1, s2)
-            return ite_ret(c, r1, r2)
+            if not (_is_split(r1) or _is_split(r2)) and not force:
+                try:
+                    # the heap after a partial return is the merge of both complete executions
+                    self.merge(st, c, s1, s2)
+                    return ite_ret(c, r1, r2)
+                except Unsupported:
+                    if not self.can_split():
+                        raise
+            elif not self.can_split():
+                raise Unsupported('path split inside a loop or an inlined call at ' + fn.where(n))
+            return ('split', _leaves(r1, s1) + _leaves(r2, s2))
         if k == 'ForStmt':
             return self.loop(fn, n, st, rest)
         if k in ('WhileStmt', 'DoStmt', 'SwitchStmt', 'CXXForRangeStmt', 'CXXTryStmt', 'BreakStmt', 'ContinueStmt', 'GotoStmt'):
@@ -613,6 +696,9 @@ class Machine:
         # expression statement
         self.ev(fn, sid, st)
         return FALL
+
+    def can_split(self):
+        return self.split and self.depth == 0 and self.bvn == 0
 
     def cont(self, fn, st, rest):
         """continuation: run the statements that follow, on this branch's state (rest is a list of lists, innermost first)"""
@@ -626,30 +712,48 @@ class Machine:
         st.setdefault('facts', []).append(c)
 
     def merge(self, st, c, s1, s2):
+        """atomic: either st becomes the join of s1 and s2, or Unsupported is raised and st is untouched"""
+        env = dict(st['env'])
         for did in set(s1['env']) | set(s2['env']):
             a, b = s1['env'].get(did), s2['env'].get(did)
             if a is None or b is None:
                 continue
-            st['env'][did] = a if _same(a, b) else ite(c, a, b)
+            env[did] = a if _same(a, b) else ite(c, a, b)
         h0 = len(st['heap'])
         w1, w2 = s1['heap'][h0:], s2['heap'][h0:]
         keys = []
         for k, v, q in w1 + w2:
             if (k, q) not in keys:
                 keys.append((k, q))
+        add = []
         for k, q in keys:
             def last(ws, s):
                 for kk, v, qq in reversed(ws):
                     if kk == k and qq == q:
                         return v
+                if isinstance(k, tuple) and k and k[0] in ('E', 'ALL'):
+                    return None
                 try:
                     return self.read(k, {'heap': st['heap'], 'alias': {}}) if q is None else None
                 except Unsupported:
                     return None
             a, b = last(w1, s1), last(w2, s2)
+            if isinstance(k, tuple) and k and k[0] in ('E', 'ALL'):
+                if k[0] == 'ALL':
+                    if a is None or b is None or a != b:
+                        raise Unsupported('state copy on one branch only')
+                    add.append((k, a, q))
+                else:
+                    add.append((k, b_or(b_and(c, a or False), b_and(b_not(c), b or False)), q))
+                continue
             if a is None or b is None:
                 raise Unsupported('quantified store on one branch only')
-            st['heap'].append((k, a if _same(a, b) else ite(c, a, b), q))
+            add.append((k, a if _same(a, b) else ite(c, a, b), q))
+        # a copy (ALL) on both branches must not be reordered with field stores
+        if any(k[0] == 'ALL' for k, v, q in add if isinstance(k, tuple) and k) and len(add) > 1:
+            raise Unsupported('state copy mixed with field stores')
+        st['env'] = env
+        st['heap'].extend(add)
 
     def cond(self, fn, nid, st):
         v = self.ev(fn, nid, st)
@@ -750,6 +854,16 @@ class Machine:
                 raise Unsupported('loop-carried variable is not an accumulator at ' + fn.where(n))
             st['env'][v] = old + self.summ(bv, lo, hi, term)
         # stores
+        written = [k for k, v, q in s['heap'][h0:] if isinstance(k, tuple) and k and k[0] == 'I']
+        if written:
+            # loop-carried memory dependence: a read of arr[j] with j != the index written in this iteration
+            def hazard(a):
+                if isinstance(a, tuple) and a and a[0] == 'rd' and isinstance(a[1], tuple) and a[1][0] == 'I':
+                    return any(w[1] == a[1][1] and w[2] != a[1][2] for w in written)
+                return False
+            for k, v, q in s['heap'][h0:]:
+                if isinstance(v, Poly) and v.mentions(hazard):
+                    raise Unsupported('loop-carried memory dependence at ' + fn.where(n))
         for k, v, q in s['heap'][h0:]:
             if q is not None:
                 raise Unsupported('nested quantified store at ' + fn.where(n))
@@ -804,8 +918,11 @@ class Machine:
             v = self.ev(fn, n['ch'][0], st)
             if k == 'ImplicitCastExpr' and n.get('ck') == 'LValueToRValue' and is_arith(n.get('ty')):
                 v = self.load(v, st)
-            if n.get('ck') in ('FloatingToIntegral',) and isinstance(v, Poly) and not v.is_const():
-                return Poly.atom(('app', 'trunc', v.key()))
+                if is_int(n.get('ty')) and isinstance(v, Poly):
+                    self.ints.update(a for a in v.atoms() if isinstance(a, tuple) and a and a[0] == 'rd')
+            if n.get('ck') in ('FloatingToIntegral',) and isinstance(v, Poly):
+                v = self.loadv(v, st)
+                return self.app('trunc', [v])
             if n.get('ck') in ('FloatingToBoolean', 'IntegralToBoolean', 'PointerToBoolean') and not is_bool(v):
                 return self.truth(v)
             return v
@@ -1004,6 +1121,9 @@ class Machine:
                     a, b = self.num(a), self.num(b)
                 else:
                     e = ('b', ('eq',) + tuple(sorted([a, b], key=repr)))
+                    a, b = self.alias(a, st), self.alias(b, st)
+                    if frozenset((a, b)) in self.ctx.distinct:
+                        return op == '!='
                     if op == '==':
                         return True if a == b else e
                     if op == '!=':
@@ -1066,6 +1186,17 @@ class Machine:
                     if r * r == c:
                         return Poly.const(r)
                 return Poly.atom(('app', 'sqrt', a.key()))
+        if short in ('floor', 'ceil', 'trunc', 'round') and len(args) == 1 and isinstance(args[0], Poly):
+            p = args[0]
+            ip = Poly({m: c for m, c in p.t.items() if self.integral(Poly({m: c}))})
+            rest = p - ip
+            if rest.is_const():
+                c = rest.cval()
+                f = {'floor': math.floor, 'ceil': math.ceil, 'trunc': math.trunc, 'round': round}[short]
+                if short != 'trunc' or not (ip - Poly.const(ip.cval())).t or c.denominator == 1:
+                    # floor(n + c) = n + floor(c); trunc(n + c) = n + c only when c is an integer (sign of n unknown)
+                    return ip + Poly.const(f(c))
+            return Poly.atom(('app', short, p.key()))
         if short == 'acos' and len(args) == 1 and isinstance(args[0], Poly) and args[0].is_const() and args[0].cval() == 1:
             return Poly()
         return Poly.atom(('app', short if short in MATH else name) + tuple(self.keyof(a) for a in args))
@@ -1103,6 +1234,11 @@ class Machine:
             return Poly.atom(('app', callee))
         if callee in ('std::abs', 'std::fabs'):
             return self.app('fabs', [self.num(a) for a in argv])
+        if short == 'copyState' and len(argv) == 2 and all(isinstance(a, tuple) for a in argv):
+            dst, srcr = self.alias(argv[0], st), self.alias(argv[1], st)
+            if dst != srcr:
+                st['heap'].append((('ALL', dst), srcr, None))
+            return None
         target = self.resolve(fn, n, recv)
         if target is not None and callee not in self.ctx.opaque_calls:
             if self.depth >= self.MAX_DEPTH:
@@ -1130,6 +1266,10 @@ class Machine:
         if callee in self.ctx.symmetric_calls and len(keys) == 2:
             keys = sorted(keys, key=repr)
         a = ('call', callee, recv) + tuple(keys)
+        if (n.get('ty') or '') == 'void':
+            st['heap'].append((('E', callee, recv) + tuple(self.alias(k, st) if isinstance(k, tuple) and k and k[0] != 'poly' else k
+                                                          for k in keys), True, None))
+            return None
         if is_arith(n.get('ty')):
             return Poly.atom(a) if (n.get('ty') or '').replace('const ', '') != 'bool' else ('b', a)
         return a
@@ -1142,6 +1282,21 @@ class Machine:
         if self.ctx.inline is None:
             return None
         return self.ctx.inline(fn, n, recv)
+
+
+def _is_split(r):
+    return isinstance(r, tuple) and r and r[0] == 'split'
+
+
+def _leaves(r, st):
+    """leaf = (path facts, final state, return value)"""
+    if _is_split(r):
+        return list(r[1])
+    return [(tuple(st.get('facts', [])), st, None if r is FALL else r)]
+
+
+def leaves(r, st):
+    return _leaves(r, st)
 
 
 def _same(a, b):
